@@ -3,6 +3,7 @@ package gerror
 import (
 	"fmt"
 	"reflect"
+	"slices"
 )
 
 // GError is a base error type that can be extended and turned into a factory.
@@ -32,9 +33,9 @@ type GError struct {
 	// This unfortunate wrapping is required for switching.
 	factoryRef factoryOf
 
-	// srcError holds a reference back to the original error - this is only populated in
-	// case of a Convert() call.
-	srcError error
+	// srcErrors holds references back to the original errors - this is only populated in
+	// case of Convert() calls (one entry per converted error, oldest first).
+	srcErrors []error
 
 	isFactory bool
 }
@@ -206,7 +207,7 @@ func (e *GError) Is(err error) bool {
 	}
 	if e == err ||
 		e.factoryRef != nil && e.factoryRef == err ||
-		e.srcError != nil && isComparable(err) && e.srcError == err {
+		isComparable(err) && slices.Contains(e.srcErrors, err) {
 		return true
 	}
 	gerr, ok := err.(Error)
